@@ -157,6 +157,14 @@ pub fn run(ctx: &mut Ctx) {
                 let f = Facts { terms: apply_perm(&adj.terms, tp), ..adj.clone() };
                 run_builder(ctx, &f, &radj, "consecutive ids, term order");
             }
+            // the same facts with rejected add_parent calls (absent parent / absent child) before every link
+            {
+                super::common::via_builder_rejected(ctx, &base, &r, Mode::Minimal, "canonical order");
+                let mut rev = base.clone();
+                rev.terms.reverse();
+                rev.edges.reverse();
+                super::common::via_builder_rejected(ctx, &rev, &r, Mode::Minimal, "reversed order");
+            }
             ctx.sample(|| json!({"dag": d.describe(), "ids": &POOL[..n], "term_orders": tperms.len(), "link_orders": eperms.len()}));
         }
     }
